@@ -127,12 +127,7 @@ func init() {
 					continue
 				}
 				u := FuncUnit{fn, fd, pkg}
-				found := false
-				for _, ce := range callsIn(fd.Body, true) {
-					if originOf(Callee(pkg.TypesInfo, ce)) == split {
-						found = true
-					}
-				}
+				found := c.callsWithinHelpers(u, split, 0)
 				if found {
 					obs = append(obs, mkOb(c, rid, u, "splits a qualified symbol", fd, Proved, "calls SplitSymbol", true))
 				} else {
